@@ -385,13 +385,15 @@ func init() {
 		funcs: []fnSpec{
 			{file: "internal/shoot/common.go", name: "Contains", inst: map[string]string{"T": "string"}},
 			{file: "internal/shoot/generatorbase.go", name: "GeneratorBase.confirmTypes"},
+			{file: "internal/shoot/generatorbase.go", name: "GeneratorBase.TestFile"},
 		},
 		types: map[string]string{
 			"bool": "bool", "string": "string", "int": "Z", "[]string": "(list string)",
 			"*GeneratorBase": "-", "TypeLister": "-", "*packages.Package": "-",
 			"*CommonFlags": "CliSelPrims.sworld", "map[string]string": "(list (string * string))",
+			"*ast.File": "(option string)", "token.Pos": "(option string)", "*token.File": "(option string)",
 		},
-		ptrs: map[string]bool{},
+		ptrs: map[string]bool{"*token.File": true},
 		wrecv: map[string]map[string]wfield{
 			"*GeneratorBase": {
 				"isTypeSpecified": {get: "(CliSelPrims.sw_specified w)", typ: "bool"},
@@ -411,6 +413,10 @@ func init() {
 		prims: map[string]prim{
 			"getGoFile":            {coq: "getGoFile_o", args: []int{1}, results: []string{"string"}},
 			"TypeLister.ListTypes": {coq: "ListTypes_o", args: nil, results: []string{"[]string"}},
+			"*ast.File.Pos":                 {recv: true, coq: "CliSelPrims.file_pos", results: []string{"token.Pos"}},
+			"*GeneratorBase.pkg.Fset.File": {coq: "CliSelPrims.fset_file", args: []int{0}, results: []string{"*token.File"}},
+			"*token.File.Name":              {recv: true, coq: "CliSelPrims.tok_name", results: []string{"string"}},
+			"filepath.Base":                 {coq: "CliSelPrims.path_base", args: []int{0}, results: []string{"string"}},
 		},
 		fatals: map[string]bool{"logx.Fatalf": true},
 		nilPan: "PNilDeref",
